@@ -23,7 +23,7 @@ REQUIRED_CELLS = {t: tuple("target:" + x for x in iohelp.TARGETS) + tuple("delim
                   tuple("enc:" + e for e in iohelp.ENCODINGS) + ("ids:int", "ids:str", "ids:nonascii", "ids:numstr",
                                                                "class:DynGraph", "class:DynDiGraph",
                                                                "src:reciprocal", "src:self-loop",
-                                                               "src:big(>1024 rows)")
+                                                               "src:big(>1024 rows)", "src:block-aligned-rows", "ids:magic")
                   for t in ("quick", "thorough")}
 
 
@@ -43,9 +43,36 @@ def big_program(rng, directed):
     return prog
 
 
+def aligned_program(rng, rows):
+    """rows of exactly 16 bytes ('100 11 10000000\\n'): every power-of-two block boundary >= 16 falls exactly
+    between two rows"""
+    t0 = 10000000
+    half = rows // 2
+    return [("add", 100, 11, t0, t0 + half), ("add", 101, 12, t0 + 3, t0 + 3 + (rows - half))]
+
+
+def aligned_log_program(rows):
+    """an event log whose rows are exactly 16 bytes ('100 101 + 10000\\n'): rows//2 distinct pairs over 3-digit
+    ids, each present for two instants and closed"""
+    prog = []
+    n = rows // 2
+    i = 0
+    for a in range(100, 400):
+        for b in range(a + 1, 400):
+            if i >= n:
+                return prog
+            prog.append(("add", a, b, 10000 + i, 10000 + i + 2))
+            i += 1
+    return prog
+
+
 def build(ctx, dn, directed, idkind, big=False):
     rng = ctx.rng
-    if big:
+    if big == "aligned-log":
+        prog = aligned_log_program(4200 if ctx.tier == "quick" else 70000)
+    elif big == "aligned":
+        prog = aligned_program(rng, 4200 if ctx.tier == "quick" else 70000)
+    elif big:
         prog = big_program(rng, directed)
     else:
         prog, fam = gen.random_program(rng, lambda: Model(directed, True), directed=directed, family="int",
@@ -61,10 +88,15 @@ def build(ctx, dn, directed, idkind, big=False):
     for op in prog:
         for (u, v, t, e) in gen.elements(op):
             nm(u), nm(v)
+        if op[0] in ("path", "star", "cycle", "dn.path", "dn.star", "dn.cycle"):
+            for x in op[1]:
+                nm(x)          # bunches that yield no pair still name nodes
     ids = iohelp.ids_for(rng, idkind, max(len(names), 1))
     if len(ids) < len(names):
         return None
     ren = dict(zip(names, ids))
+    if big in ("aligned", "aligned-log"):
+        ren = {x: x for x in names}          # the ids are part of the fixed row width
 
     def rn(op):
         k = op[0]
@@ -74,6 +106,14 @@ def build(ctx, dn, directed, idkind, big=False):
             return (k, [(ren[x[0]], ren[x[1]]) + tuple(x[2:]) for x in op[1]], op[2], op[3])
         return (k, [ren[x] for x in op[1]]) + tuple(op[2:])
     prog = [rn(op) for op in prog]
+    if big:
+        # large fixed programs of plain accepted adds: no per-call model copies
+        G = driver.new_graph(dn, directed, True)
+        m = Model(directed, True)
+        for op in prog:
+            G.add_interaction(op[1], op[2], op[3], op[4])
+            m.apply(op[1], op[2], op[3], op[4])
+        return G, m, prog
     G, m, ok = driver.build_accepted(dn, prog, directed)
     if not ok or not m.nontrivial():
         return None
@@ -206,12 +246,17 @@ def four_column(ctx, dn):
 def run(ctx, dn):
     rng = ctx.rng
     # the configuration grid is walked systematically (graphs are random), shard by shard
-    grid = [(d, i, dl, e, t) for d in (False, True) for i in ("int", "numstr", "str", "nonascii")
+    grid = [(d, i, dl, e, t) for d in (False, True) for i in ("int", "numstr", "str", "nonascii", "magic")
             for dl in iohelp.DELIMS for e in iohelp.ENCODINGS for t in iohelp.TARGETS]
     rng.shuffle(grid)
     n = 0
     # one large graph per shard first (block-wise writers, long files)
     one(ctx, dn, rng.random() < 0.5, "int", rng.choice(iohelp.DELIMS), "utf-8", rng.choice(iohelp.TARGETS), big=True)
+    if ctx.shard % 4 == 0:
+        # a file whose rows are 16 bytes each (64 KiB, and 1 MiB in the thorough tier, fall between two rows)
+        one(ctx, dn, ctx.shard % 8 == 0, "int", None, "utf-8", rng.choice(("path.txt", "path.gz", "fileobj")),
+            big="aligned")
+        ctx.cell("src:block-aligned-rows")
     while ctx.time_left() > 1:
         cfg = grid[n % len(grid)]
         one(ctx, dn, *cfg)
